@@ -1,3 +1,5 @@
+mod astu;
+mod bcv;
 mod corpus;
 mod fw;
 mod hval;
